@@ -33,7 +33,7 @@ TOLERANCES = {"everything": "bitwise / exact equality (OpenCV's RNG re-seeded be
 ASSUMPTIONS = ["files are written to a per-run temporary directory that is removed afterwards", "lossless formats: PNG (8 bit) and TIFF (16 bit), as documented in OpticalImage.write"]
 FLOORS = {
     "quick": {"files_read_in_given_order": 16, "write_with_compression_option": 15, "npz_roundtrip": 250, "bytes_roundtrip": 150, "optical_write_read": 60, "correction_roundtrip": 150, "estimator_regions_compared": 100, "correction_path_reused": 200, "caller_config_edited_after_construction": 40, "curvature_crop_points_typed": 6, "curvature_resize_factor": 20, "curvature_interpolation_order": 20, "optical_image_converted_before_saving": 2, "date_set_after_construction": 5},
-    "thorough": {"files_read_in_given_order": 160, "write_with_compression_option": 200, "npz_roundtrip": 3000, "bytes_roundtrip": 1800, "optical_write_read": 700, "correction_roundtrip": 1700, "estimator_regions_compared": 1000, "correction_path_reused": 2000, "caller_config_edited_after_construction": 400, "curvature_crop_points_typed": 60, "curvature_resize_factor": 200, "curvature_interpolation_order": 200, "optical_image_converted_before_saving": 100, "date_set_after_construction": 100},
+    "thorough": {"files_read_in_given_order": 160, "write_with_compression_option": 200, "npz_roundtrip": 3000, "bytes_roundtrip": 1800, "optical_write_read": 700, "correction_roundtrip": 1700, "estimator_regions_compared": 1000, "correction_path_reused": 2000, "caller_config_edited_after_construction": 400, "curvature_crop_points_typed": 60, "curvature_resize_factor": 200, "curvature_interpolation_order": 200, "optical_image_converted_before_saving": 50, "date_set_after_construction": 100},
 }
 SHARD_TIMEOUT = {"quick": 1500, "thorough": 7200}
 
